@@ -682,6 +682,29 @@ def _takes_title_branch(cfg, pth, title_guard):
     return False
 
 
+def _match_object_test(fi, stmt, call):
+    """`m = <R>.match(<x>)` whose result is used as a truth value in a test of the same function (`if m:`, `if m is not None`,
+    `while m`): the call is a test written in two steps"""
+    if not (isinstance(stmt, ast.Assign) and stmt.value is call and len(stmt.targets) == 1 and isinstance(stmt.targets[0], ast.Name)):
+        return False
+    if not (isinstance(call, ast.Call) and isinstance(call.func, ast.Attribute) and call.func.attr in ("match", "search", "fullmatch")):
+        return False
+    m = stmt.targets[0].id
+    for sub in walk_shallow(fi.node):
+        if isinstance(sub, (ast.If, ast.While, ast.IfExp)):
+            t = sub.test
+            atoms = list(t.values) if isinstance(t, ast.BoolOp) else [t]
+            for a in atoms:
+                if isinstance(a, ast.UnaryOp) and isinstance(a.op, ast.Not):
+                    a = a.operand
+                if isinstance(a, ast.Name) and a.id == m:
+                    return True
+                if isinstance(a, ast.Compare) and isinstance(a.left, ast.Name) and a.left.id == m and len(a.ops) == 1 \
+                        and isinstance(a.ops[0], (ast.Is, ast.IsNot)) and isinstance(a.comparators[0], ast.Constant) and a.comparators[0].value is None:
+                    return True
+    return False
+
+
 def _is_title_test(node, linevar):
     """`<line>.startswith('~')`, or the same test written with a title regex constant (`<..TITLE..>.match(<line>)`; that the
     constant means "white space, then ~" is SEC.TITLE-PRED's business)"""
@@ -1096,8 +1119,14 @@ def _title_regex_ok(p, fi, c):
     if c.func.attr != "match":
         return False
     try:
-        a, b = rx.DFA("(?:%s).*" % pat.pattern, pat.flags), rx.DFA(r"\s*~.*")
-        return bool(rx.included(a, b)[0] and rx.included(b, a)[0])
+        a = rx.DFA("(?:%s)[\\s\\S]*" % pat.pattern, pat.flags)        # the lines that have a prefix in L(pattern)
+        b = rx.DFA(r"\s*~[\s\S]*")
+        if rx.included(a, b)[0] and rx.included(b, a)[0]:
+            return True
+        b2 = rx.DFA(r"~[\s\S]*")
+        if rx.included(a, b2)[0] and rx.included(b2, a)[0]:
+            return "stripped-only"      # the same test provided the text it is applied to has no leading white space
+        return False
     except Exception:  # noqa - unsupported construct: not decided here
         return None
 
@@ -1125,7 +1154,10 @@ def rule_title_pred(ctx):
             if node.ast is None or node.kind not in ("test", "stmt"):
                 continue
             for c in walk_expr_shallow(node.ast):
-                tv_ = _title_regex_ok(p, fi, c) if node.kind == "test" else None
+                tv_ = _title_regex_ok(p, fi, c) if (node.kind == "test" or _match_object_test(fi, node.ast, c)) else None
+                if tv_ == "stripped-only":
+                    arg_ = c.args[-1] if c.args else None
+                    tv_ = bool(arg_ is not None and _fully_stripped(arg_, cfg, rd, node.id))
                 if tv_ is not None:
                     n += 1
                     ctx.check(tv_, "SEC.TITLE-PRED", "%s#title-test(%s)" % (fi.qual, ast.unparse(c)[:40]), fi, c,
@@ -1155,12 +1187,17 @@ def rule_title_pred(ctx):
         other = []
         for f_ in scope:
           for sub in walk_shallow(f_.node):
+            tested = None
             if isinstance(sub, (ast.If, ast.While, ast.IfExp)):
-                for c in ast.walk(sub.test):
+                tested = sub.test
+            elif isinstance(sub, ast.Assign) and isinstance(sub.value, ast.Call) and _match_object_test(f_, sub, sub.value):
+                tested = sub.value          # `m = R.match(line)` ... `if m:`
+            if tested is not None:
+                for c in ast.walk(tested):
                     if isinstance(c, ast.Call) and isinstance(c.func, ast.Attribute) and c.func.attr in ("match", "search", "fullmatch", "findall"):
                         verdict = _title_regex_ok(p, f_, c)
-                        if verdict is True:
-                            has_sw = True       # the same set of title lines, written as a regular expression
+                        if verdict is True or verdict == "stripped-only":
+                            has_sw = True       # the same set of title lines, written as a regular expression (stripping is checked above)
                             continue
                         txt = ast.unparse(c)
                         if verdict is False or "~" in txt or "TITLE" in txt.upper() or "SECTION" in txt.upper():
